@@ -91,7 +91,7 @@ func runCheck(opt *checkOpts) int {
 	}
 	refuted := map[string]bool{}
 	for _, f := range kf.Findings {
-		if f.Status == "open" && strings.Contains(f.Obligation, "#ensures.") {
+		if f.Status == "open" && (strings.Contains(f.Obligation, "#ensures.") || strings.Contains(f.Obligation, ".lemma.")) {
 			refuted[f.Obligation] = true
 		}
 	}
@@ -178,7 +178,7 @@ func runCheck(opt *checkOpts) int {
 					if prev.Name == u.lemma.Name && prev.Pkg == u.lemma.Pkg {
 						break
 					}
-					if prev.Pkg == u.lemma.Pkg {
+					if prev.Pkg == u.lemma.Pkg && !refuted[prev.Pkg+".lemma."+prev.Name+"#proof"] {
 						c.defs = append(c.defs, "(assert "+fr.lemmaAxiom(prev)+")")
 					}
 				}
@@ -197,7 +197,7 @@ func runCheck(opt *checkOpts) int {
 			c.skipProp = skip
 			lf := newFrame(c, nil, nil, "lemmas")
 			for _, lm := range repo.cs.Lemmas {
-				if lm.Pkg == fc.Pkg {
+				if lm.Pkg == fc.Pkg && !refuted[lm.Pkg+".lemma."+lm.Name+"#proof"] {
 					c.defs = append(c.defs, "(assert "+lf.lemmaAxiom(lm)+")")
 				}
 			}
